@@ -89,8 +89,8 @@ def materialise(v, owner_cls, empty):
 
 
 def replay(payload):
-    mod = importlib.import_module(payload['module'])
-    reg = mod.registry()
+    from pv.contract import load_registry
+    reg = load_registry(payload['module'])
     con = reg.contracts[payload['contract']]
     fn, owner = resolve(con.target)
     kind = con.target.split(':')[0]
